@@ -41,6 +41,7 @@ ASSUMPTIONS = [
     "a task that does not reach its next scheduling point within 60 s makes the run inconclusive (exit 2), never a violation",
 ]
 BUDGET = {"quick": 170, "thorough": 2600}
+TIMEOUT = {"quick": 2400, "thorough": 8 * 3600}
 SHRINK = {"quick": True, "thorough": True}
 BOUNDS = {"tasks": "2-4", "schedule": "<=200 choices"}
 
@@ -128,7 +129,7 @@ DFS_CONFIGS = [
 def enumerations(tier):
     """Exhaustive exploration of *all* interleavings of two tasks (depth-first over the scheduler's
     choice points); one configuration per shard."""
-    limit = 2100 if tier == "quick" else 200000
+    limit = 2100 if tier == "quick" else 120000
     def g():
         for name, mode, tasks, pre in DFS_CONFIGS:
             yield {"dfs": name, "mode": mode, "tasks": tasks, "pre": pre, "limit": limit if mode == "threads" else limit // 5 if mode == "forks" else limit // 10}
